@@ -119,3 +119,16 @@ def is_sat(assumptions, timeout_ms=10000):
         s.add(a)
     r = s.check()
     return "sat" if r == z3.sat else ("unsat" if r == z3.unsat else "unknown")
+
+
+def cross_check(assumptions, goal, timeout_s=10):
+    """thorough tier: the same query on the independent back ends (SMT-LIB2 text -> /usr/bin/z3 4.8.12, /usr/bin/cvc5 1.0).
+    Returns dict backend -> 'unsat' | 'sat' | 'unknown' | 'timeout' | 'error'."""
+    text = smt2_of(assumptions, goal)
+    out = {}
+    for name, cmd in (("z3-4.8", ["/usr/bin/z3", f"-T:{timeout_s}"]), ("cvc5-1.0", ["/usr/bin/cvc5", "--lang=smt2", f"--tlimit={timeout_s * 1000}"])):
+        if not shutil.which(cmd[0]):
+            continue
+        res, _ = run_cli(cmd, text, timeout_s)
+        out[name] = res if res in ("unsat", "sat", "unknown", "timeout") else "error"
+    return out
